@@ -240,6 +240,25 @@ func clauseAlternatives(cl *term.Term) (head *term.Term, alts [][]*term.Term) {
 	return head, alts
 }
 
+// flatGoals flattens a conjunction into its goals (a variable goal G becomes call(G)); ';' and '->' are goals.
+func flatGoals(b *term.Term) []*term.Term {
+	var goals []*term.Term
+	var flat func(t *term.Term)
+	flat = func(t *term.Term) {
+		if t.IsCmp(",", 2) {
+			flat(t.Args[0])
+			flat(t.Args[1])
+			return
+		}
+		if t.K == term.KVar {
+			t = term.C("call", t)
+		}
+		goals = append(goals, t)
+	}
+	flat(b)
+	return goals
+}
+
 func clauseOf(head *term.Term, goals []*term.Term) *term.Term {
 	if goals == nil {
 		return head
@@ -250,6 +269,10 @@ func clauseOf(head *term.Term, goals []*term.Term) *term.Term {
 // checkCompiled compares the compiled clauses with the source clause.
 func checkCompiled(src *term.Term, ccs []compiledClause) (Status, string) {
 	head, alts := clauseAlternatives(src)
+	if len(ccs) == 1 && len(alts) > 1 {
+		// a compiler may also keep a disjunctive body as ONE clause whose goal is the disjunction itself
+		alts = [][]*term.Term{flatGoals(src.Args[1])}
+	}
 	if len(ccs) != len(alts) {
 		return Violated, fmt.Sprintf("source clause has %d top-level alternatives but %d clauses were compiled", len(alts), len(ccs))
 	}
@@ -264,7 +287,8 @@ func checkCompiled(src *term.Term, ccs []compiledClause) (Status, string) {
 		if !term.Variant(want, got) {
 			return Violated, fmt.Sprintf("compiled clause %d denotes %s but the source alternative is %s", i, got, want)
 		}
-		if n := len(term.VarsOf(want)); n != cc.NVars {
+		// fewer slots than distinct variables cannot denote the clause; spare slots are an internal matter
+		if n := len(term.VarsOf(want)); cc.NVars < n {
 			return Violated, fmt.Sprintf("compiled clause %d reserves %d variables, the source alternative has %d", i, cc.NVars, n)
 		}
 	}
